@@ -109,6 +109,10 @@ class _Transform(ast.NodeTransformer):
                     out.append(ast.parse('from pyvc.proxies import scipyx as scipy').body[0])
                 self.log.append('T3 `import %s` -> pyvc.proxies' % a.name)
                 continue
+            if a.name == 'xml.etree.ElementTree':
+                self.log.append('T3 `import %s as %s` -> pyvc.proxies.etx (real parser behind a read-only element view)' % (a.name, bind))
+                out.append(ast.parse('from pyvc.proxies import etx as %s' % bind).body[0])
+                continue
             if a.name == 'matplotlib.pyplot' and self.stack:
                 self.log.append('T3 function-local `import matplotlib.pyplot as %s` -> pyvc.proxies.pyplotx (recording no-op)' % bind)
                 out.append(ast.parse('from pyvc.proxies import pyplotx as %s' % bind).body[0])
